@@ -169,12 +169,13 @@ Fixpoint pairwise {A} (f : A -> A -> bool) (l : list A) : bool :=
   match l with [] => true | x :: l' => forallb (f x) l' && pairwise f l' end.
 Definition incomparable (a b : bits) : bool := negb (comparable a b).
 
-(* the trie is well formed: every leaf sits on the path spelled by its key *)
+(* the trie is well formed ([wf] of Proofs/KeyspaceBase.v): every leaf sits on the path spelled by
+   its key and every inner node holds a key *)
 Fixpoint wfb (path : bits) (t : T) : bool :=
   match t with
   | E => true
   | L k _ => is_prefix path k
-  | Nd t0 t1 => wfb (path ++ [false]) t0 && wfb (path ++ [true]) t1
+  | Nd t0 t1 => wfb (path ++ [false]) t0 && wfb (path ++ [true]) t1 && (0 <? size t0 + size t1)
   end.
 Definition maxlen (l : list bits) : nat := fold_right (fun k m => Nat.max (length k) m) 0 l.
 
